@@ -47,6 +47,7 @@ def run(ctx):
     res = ctx.drive(ct.PKG, "TestC21", env={"VERIF_TRACE_OUT": base}, label="C21/record", timeout=2400)
     if res is None:
         return
+    ctx.validated -= int(res.get("validated", 0))  # counted when TLC accepts the events, not when they are recorded
     ct.validate(ctx, "TraceResizePlanC21", (res.get("coverage") or {}).get("trace_files") or [], base + ".cases",
                 "TestC21", {}, "C21", _match, parallel=2, timeout=1500)
 
